@@ -20,6 +20,10 @@ ASSUMPTIONS = [
     "calls; all spellings must give the same design (training and new frame), the design must have "
     "one term per call, and binary columns are judged by Spec.C16.binaryExpected, Treatment-coded "
     "columns by Spec.C04.decodeLabel (driver op c04_spec)",
+    "prop at prediction: response.evaluate_new_data is judged (driver op c16_column: the trials of "
+    "every row of the new frame, a constant broadcast to its row count) on the new frame as drawn and "
+    "on the same rows with the successes column missing in some or all rows (float NaN, nullable Int64 "
+    "pd.NA) and with the successes column removed",
 ]
 TRUSTED = ["numpy broadcasting of constants (np.ones * c)"]
 
@@ -112,6 +116,31 @@ def make_builder(mode, objs, ns):
     return lambda formula, data: caller(formulae.design_matrices, formula, data, ns, vals)
 
 
+def prop_new_frames(r, nd, train, sname):
+    """new frames for the prediction stage of a prop response whose successes column is `sname`:
+    the frame as drawn, and the same rows with the successes missing in some (or all) rows as a float
+    column with NaN, as a nullable Int64 column with pd.NA, and without the successes column"""
+    n = len(nd)
+    out = [("as drawn", nd)]
+    if sname in nd.columns:
+        base = nd[sname].tolist()
+    else:
+        base = [int(v) for v in train[sname].tolist()[:1]] * n
+    hide = [r.random() < 0.5 for _ in range(n)]
+    if r.random() < 0.2:
+        hide = [True] * n
+    if not any(hide):
+        hide[r.randrange(n)] = True
+    f1 = nd.copy()
+    f1[sname] = np.array([np.nan if h else float(v) for h, v in zip(hide, base)], dtype=float)
+    out.append(("successes missing (NaN)", f1))
+    f2 = nd.copy()
+    f2[sname] = pd.array([None if h else int(v) for h, v in zip(hide, base)], dtype="Int64")
+    out.append(("successes missing (pd.NA, Int64)", f2))
+    out.append(("no successes column", nd.drop(columns=[sname]) if sname in nd.columns else nd))
+    return out
+
+
 def lit(v):
     return repr(v) if isinstance(v, str) else str(v)
 
@@ -152,7 +181,8 @@ def explore(tier, seed, res=None, replay=None):
     res = res or Result()
     res.rule = ("generated frames x success values (present, absent, omitted; numeric and string) x "
                 "offsets (column, constant, call) x trial specifications (column, constant; valid and "
-                "invalid), at training time and on new frames; alias pairs; formulas with two calls of "
+                "invalid), at training time and on new frames (prop: also new frames whose successes are "
+                "missing or absent); alias pairs; formulas with two calls of "
                 "one helper differing in a keyword value, in every helper/alias spelling; each frame "
                 "with a clean namespace and with the registry names bound to unrelated objects in "
                 "extra_namespace / the caller's locals / the caller's globals; non-trivial = every "
@@ -210,6 +240,11 @@ def explore(tier, seed, res=None, replay=None):
                 ("offset(z)", df["z"].tolist(), nd["z"].tolist()),
                 ("offset(3)", [3.0] * len(df), [3.0] * len(nd)),
                 ("offset(0.5)", [0.5] * len(df), [0.5] * len(nd)),
+                # a constant may be written as a signed number or a constant expression (D32)
+                ("offset(-1)", [-1.0] * len(df), [-1.0] * len(nd)),
+                ("offset(-0.5)", [-0.5] * len(df), [-0.5] * len(nd)),
+                ("offset(1 + 2)", [3.0] * len(df), [3.0] * len(nd)),
+                ("offset(2 * 3 - 1)", [5.0] * len(df), [5.0] * len(nd)),
                 ("offset(I(z * 2))", (df["z"] * 2).tolist(), (nd["z"] * 2).tolist()),
                 ("offset(np.abs(z))", df["z"].abs().tolist(), nd["z"].abs().tolist()),
                 ("I(x + z)", (df["x"] + df["z"]).tolist(), (nd["x"] + nd["z"]).tolist()),
@@ -240,9 +275,13 @@ def explore(tier, seed, res=None, replay=None):
         bad["nbig"] = bad["n"] + 250
         for fn in ("p", "prop", "proportion"):
             for sname, tname in (("s", "n"), ("s2", "n"), ("s3", "n"), ("s", "n2"), ("s", 9), ("s", 2),
-                                 ("s8", 300), ("s8", "nbig")):
+                                 ("s8", 300), ("s8", "nbig"), ("s", ("4 + 5", 9)), ("s", ("3 * 4", 12)),
+                                 ("s", ("+9", 9))):
                 res.evaluations += 1
-                arg = f"{fn}({sname}, {tname})"
+                if isinstance(tname, tuple):          # constant trials written as an expression
+                    arg, tname = f"{fn}({sname}, {tname[0]})", tname[1]
+                else:
+                    arg = f"{fn}({sname}, {tname})"
                 case = mk(arg)
                 trials = bad[tname].tolist() if isinstance(tname, str) else [tname] * len(bad)
                 try:
@@ -257,16 +296,25 @@ def explore(tier, seed, res=None, replay=None):
                      "trials": [designs.frac(v) for v in trials], "accepted": acc, "err": err,
                      "col0": c0, "col1": c1}, case)
                 if dm is not None:
-                    # prediction reports the trials of the new frame (or the constant)
-                    try:
-                        t1 = np.asarray(dm.response.evaluate_new_data(nd), dtype=float).ravel()
-                        want = nd[tname].tolist() if isinstance(tname, str) else [tname] * len(nd)
-                        add({"op": "c16_column", "expected": [designs.frac(v) for v in want],
-                             "column": [designs.frac(v) for v in t1]}, dict(case, when="prediction"))
-                    except Exception as e:  # noqa
-                        res.failures.append({"case": case, "impl": type(e).__name__, "finding": None,
-                                             "expected": "trials of the new frame",
-                                             "why": "response.evaluate_new_data raised"})
+                    # prediction reports the trials of the new frame (or the constant): of EVERY row
+                    # of it, whatever the frame says about the successes -- the out-of-sample frame
+                    # carries them complete, with missing values (not known yet), or not at all
+                    rp = rng_for(seed, "c16", "prop_new", fi, sname)
+                    for tag, frame in prop_new_frames(rp, nd, bad, sname):
+                        res.evaluations += 1
+                        res.count("prop_prediction:" + tag)
+                        pcase = dict(case, when="prediction", new_frame=tag)
+                        if tag == "as drawn":
+                            pcase.pop("new_frame")
+                        try:
+                            t1 = np.asarray(dm.response.evaluate_new_data(frame), dtype=float).ravel()
+                            want = frame[tname].tolist() if isinstance(tname, str) else [tname] * len(frame)
+                            add({"op": "c16_column", "expected": [designs.frac(v) for v in want],
+                                 "column": [designs.frac(v) for v in t1]}, pcase)
+                        except Exception as e:  # noqa
+                            res.failures.append({"case": pcase, "impl": type(e).__name__, "finding": None,
+                                                 "expected": "trials of the new frame",
+                                                 "why": "response.evaluate_new_data raised"})
         # ---- aliases: identical designs ------------------------------------------------------------
         for a, b in (("B(k, 2)", "binary(k, 2)"), ("standardize(x)", "scale(x)"),
                      ("T(f, 'b')", "C(f, Treatment('b'))"), ("S(g, 'v')", "C(g, Sum('v'))"),
@@ -368,7 +416,7 @@ def explore(tier, seed, res=None, replay=None):
         if len(res.samples) < 4:
             res.samples.append({"frame_seed": fi, "helpers": ["binary(k, 2)", "offset(3)", "p(s, n)"],
                                 "scope": scope})
-    for (case, why), sp in zip(owners, ask(reqs)):
+    for (case, why), sp, rq in zip(owners, ask(reqs), reqs):
         res.traces += 1
         if "parts" in sp or "err" in sp:          # c04_spec
             bad_parts = [v for v in sp.get("parts", []) if "err" not in v and not v["ok"]]
@@ -378,7 +426,15 @@ def explore(tier, seed, res=None, replay=None):
                                      "why": f"column labelled {bad_parts[0]['first_bad']!r} does not hold "
                                             "what the label says"})
             continue
-        if not sp.get("holds"):
+        if not sp.get("holds") and rq.get("op") == "c16_column":
+            def show(colm):
+                return None if colm is None else [None if v is None else v[0] / v[1] for v in colm]
+            res.failures.append({"case": case, "impl": {"column": show(rq.get("column"))},
+                                 "expected": {"column": show(rq.get("expected"))}, "finding": None,
+                                 "why": f"{case['helper']}: pointwise meaning violated "
+                                        f"({case.get('when', 'training')}): Spec.C16 column predicate "
+                                        "false on the returned column"})
+        elif not sp.get("holds"):
             res.failures.append({"case": case, "impl": sp, "expected": "Spec.C16", "finding": None,
                                  "why": f"{case['helper']}: pointwise meaning violated "
                                         f"({case.get('when', 'training')})"})
